@@ -762,6 +762,69 @@ def assignment_correspondence(ctx, rng, n):
                    "assignment lines" % len(cases), bad == 0, kind="correspondence", detail="disagreements %d" % bad)
 
 
+# ---------------------------------------------------------------------------------------------------------------
+# output stage: an accepted input must also get through the sweep WITH output and the post-processing
+
+def oracle_tables(ctx, rng, n):
+    """[Setup][[AssemblyTables]] requests of all kinds - existing assemblies, holes, ids 0 / negative / beyond the core (the reader
+    skips what is not modelled with a warning), heights inside / outside the core, pin data with and without a pin model - run end to
+    end as `dassh` does (temperature_sweep + postprocess, output written): never an unhandled exception"""
+    import dassh
+    import logging
+    import os
+    import shutil
+    for ci in range(n):
+        kinds = ["id-zero", "mixed", "valid", "id-negative", "hole", "id-beyond", "z-outside", "pin-data-no-pins"]
+        kind = kinds[ci % len(kinds)]
+        pos = [(1, 1)] + [p for p in gi.core_positions(2)[1:] if rng.random() < 0.5]
+        if (kind in ("id-zero", "mixed") or rng.random() < 0.5) and (2, 6) not in pos:
+            pos.append((2, 6))                       # the LAST position of the core is occupied
+        case = gi.random_case(rng, positions=pos, n_types=1, gap_model=rng.choice(['flow', 'none']), length=0.05, flow_range=(1.0, 5.0))
+        gi.random_power(rng, case)
+        L = case['core']['length']
+        ids = [gi.position_index(a['ring'], a['pos']) for a in case['assignment']]
+        asm = {"valid": ids[:2], "id-zero": [0], "id-negative": [-1], "id-beyond": [99], "hole": [i for i in range(1, 8) if i not in ids][:1] or [99],
+               "mixed": [0, ids[0]], "z-outside": ids[:1], "pin-data-no-pins": ids[:1]}[kind]
+        z = [round(L * rng.uniform(0.2, 0.8), 4)] if kind != "z-outside" else [-0.01, 2 * L]
+        typ = "clad_od" if kind == "pin-data-no-pins" else rng.choice(["coolant_subchannel", "duct_mw"])
+        tab = ("    [[AssemblyTables]]\n        [[[t1]]]\n            type = %s\n            assemblies = %s\n            axial_positions = %s\n"
+               % (typ, ", ".join(map(str, asm)) + ("," if len(asm) == 1 else ""), ", ".join(map(str, z)) + ("," if len(z) == 1 else "")))
+        d = str(ctx.work / ("tab%d" % ci))
+        shutil.rmtree(d, ignore_errors=True)
+        inp_path = gi.write_case(case, d)
+        txt = open(inp_path).read()
+        key = "[Materials]" if "[Materials]" in txt else "[Power]"
+        open(inp_path, "w").write(txt.replace(key, tab + key, 1))
+        logging.getLogger('dassh').setLevel(logging.CRITICAL)
+        ctx.evals += 1
+
+        def go():
+            inp = dassh.DASSH_Input(inp_path)
+            r = dassh.Reactor(inp, path=d, write_output=True)
+            r.temperature_sweep()
+            r.postprocess()
+            return r
+        try:
+            with_timeout(go, 120)
+            ctx.count("tables:%s:completed" % kind)
+            if kind == "valid" and not any(f.startswith("temp_%s_a=" % typ) for f in os.listdir(d)):
+                ctx.violation("c18-tables-missing", "a valid AssemblyTables request (%s, assemblies %s, z %s) produces no table file"
+                              % (typ, asm, z), case=case, table=tab)
+        except SystemExit:
+            ctx.count("tables:%s:rejected" % kind)
+        except Hang:
+            ctx.violation("c18-tables-hang:%s" % kind, "an input with an AssemblyTables request (%s) does not terminate" % kind, case=case, table=tab)
+        except Exception as ex:
+            import traceback
+            tb = [f for f in traceback.extract_tb(ex.__traceback__) if '/dassh/' in f.filename]
+            site = "%s:%s" % (tb[-1].filename.split('/')[-1], tb[-1].name) if tb else "?"
+            ctx.violation("c18-tables-exception:%s:%s" % (kind, type(ex).__name__),
+                          "an accepted input with the AssemblyTables request 'type = %s, assemblies = %s, axial_positions = %s' ends in an "
+                          "unhandled %s at %s after the sweep" % (typ, asm, z, type(ex).__name__, site), case=case, table=tab)
+        finally:
+            shutil.rmtree(d, ignore_errors=True)
+
+
 def run(ctx):
     rng = random.Random(18000 + ctx.seed)
     ctx.rule = ("valid generated inputs (1-7 assemblies, 1-2 types, unrodded regions, low-fidelity, fuel models, all gap models) and "
@@ -840,6 +903,7 @@ def run(ctx):
         ctx.obligation("differential classification: Model.Accept agrees with the real reader on %d inputs" % len(reqs), bad == 0,
                        kind="correspondence", detail="disagreements %d" % bad)
     oracle_perturb(ctx, rng, 12 if ctx.thorough else 3, 14 if ctx.thorough else 6)
+    oracle_tables(ctx, rng, 40 if ctx.thorough else 5)
     ctx.nontrivial = ctx.evals
     ctx.traces = ctx.evals
     ctx.trusted += ["hand model of the numeric acceptance layer; the classification of which inputs are 'impossible' (the fault "
